@@ -16,10 +16,12 @@ package types
 //@ func (k BankKeeper) SendCoinsFromAccountToModule
 //@ trusted
 //@ modifies Bank
+//@ ensures err == nil ==> Bank == bankA2M(old(Bank), senderAddr, recipientModule, amt)
 //@ ensures err != nil ==> Bank == old(Bank)
 //@ func (k BankKeeper) SendCoinsFromModuleToAccount
 //@ trusted
 //@ modifies Bank
+//@ ensures err == nil ==> Bank == bankM2A(old(Bank), senderModule, recipientAddr, amt)
 //@ ensures err != nil ==> Bank == old(Bank)
 
 //@ spec signingFee(o OtherState) sdk.Coins uninterpreted
